@@ -1091,7 +1091,8 @@ class Bus(ContainerBase, StoreClientMixin): # not a ContainerOperand
                 key=key,
                 )
 
-        return self._derive(series)
+        # derive from the stored Series (observing max_persist) in the sorted order, not from the fully loaded values
+        return self._derive(self._series.reindex(series.index))
 
 
     def roll(self,
